@@ -139,6 +139,22 @@ def case_joint():
     return specs, {'x': P([0.3, -0.2]), 'scale': P([0.5], 0.01, None), 'tau': P([1.5], 0.01, None), 'loc': P([0.1])}, 'm', {}
 
 
+def case_joint_mixed():
+    """a batched scalar component next to a component over an UN-batched vector whose length equals the sample count"""
+    specs = [
+        {'id': 'da', 'type': 'Distribution', 'distribution': 'torch.distributions.Normal',
+         'x': {'id': 'a', 'type': 'Parameter', 'tensor': [0.3]},
+         'parameters': {'loc': {'id': 'a_loc', 'type': 'Parameter', 'tensor': [0.0]},
+                        'scale': {'id': 'a_scale', 'type': 'Parameter', 'tensor': [1.0]}}},
+        {'id': 'dy', 'type': 'Distribution', 'distribution': 'torch.distributions.Normal',
+         'x': {'id': 'y', 'type': 'Parameter', 'tensor': [-1.0, 0.8]},
+         'parameters': {'loc': {'id': 'y_loc', 'type': 'Parameter', 'tensor': [0.5]},
+                        'scale': {'id': 'y_scale', 'type': 'Parameter', 'tensor': [2.0]}}},
+        {'id': 'm', 'type': 'JointDistributionModel', 'distributions': ['da', 'dy']},
+    ]
+    return specs, {'a': P([0.3]), 'y': P([-1.0, 0.8]), 'a_scale': P([1.0], 0.01, None)}, 'm', {}
+
+
 def case_likelihood(tree_kind, site_kind, subst):
     taxa = cm.taxa_json(3)
     params = {}
@@ -189,6 +205,7 @@ CASES = {
     'distribution:normal': lambda: case_distribution('normal'),
     'distribution:gamma': lambda: case_distribution('gamma'),
     'joint': case_joint,
+    'joint:batched scalar + unbatched vector of length S': case_joint_mixed,
     'likelihood:unrooted/constant/JC69': lambda: case_likelihood('unrooted', 'constant', 'JC69'),
     'likelihood:strict/weibull/JC69': lambda: case_likelihood('strict', 'weibull', 'JC69'),
     'likelihood:simple/invariant/JC69': lambda: case_likelihood('simple', 'invariant', 'JC69'),
